@@ -272,7 +272,10 @@ let run_case oc (c : case) =
   let cfg = { cfg_tls = c.tls; cfg_auth = c.auth } in
   let st0 = model_init_st (n_of_int c.lim) c.reads c.fault in
   let (r, st1) = model_run_on fpext fptrunc model_errtab cfg sc st0 in
-  List.iter (print_event oc c.id) (List.rev st1.s_trace);
+  (* dinit=1: the shim inherits the trait's default on_init, whose invocation the harness cannot
+     observe (there is no user code in it): the model's CInit event is not printed *)
+  let visible e = not (c.dinit && (match e with ECall (CInit _) -> true | _ -> false)) in
+  List.iter (fun e -> if visible e then print_event oc c.id e) (List.rev st1.s_trace);
   print_result oc c.id r
 
 let parse_fault s =
